@@ -315,6 +315,14 @@ func (rn *runner) reportCorr(oc *outcome, name string) {
 	c := oc.c
 	if shrinkBudget["c:"+name]++; shrinkBudget["c:"+name] <= 3 {
 		c = shrinkCase(oc.c, func(t *Case) bool {
+			// ask the model first: a candidate it calls timing-dependent (a wait for a
+			// sleeping process ...) is not worth the seconds it takes to run
+			rn.mu.Lock()
+			pre := parseModel(rn.m.Ask1(modelRequest(t, oc.o.Work, oc.o.Env)))
+			rn.mu.Unlock()
+			if pre.Racy || pre.Unmod {
+				return false
+			}
 			r := rn.run(t)
 			return corrDiff(t, r.o, r.m) != ""
 		})
